@@ -394,7 +394,7 @@ impl Property for C12 {
     fn run(&self, ctx: &mut Ctx) {
         let pre = precompute();
         watchdog::start(Duration::from_secs(self.case_limit_s()), |t| serde_json::from_str(t).unwrap_or(Value::Null));
-        let cases = ctx.tier.pick(1_000, 20_000);
+        let cases = ctx.tier.pick(700, 20_000);
         ctx.run_streams("c12-schedules", cases, 64, |ctx, bytes| {
             ctx.mark(&json!({"stream": hex(bytes)}));
             if run_schedule(ctx, bytes, &pre)? {
